@@ -220,7 +220,14 @@ fn main() {
                     }
                 }
                 "confined" => {
-                    let (c, region) = confined_position(&mut rng);
+                    let (c, region) = if round % 4 == 0 {
+                        match pushback_position(&mut rng) {
+                            Some(x) => x,
+                            None => continue,
+                        }
+                    } else {
+                        confined_position(&mut rng)
+                    };
                     let gold = rng.chance(0.5);
                     let mn = start_move_number(&mut rng);
                     if g.reset_parsed(&c, gold, mn, "confined") {
